@@ -13,6 +13,10 @@ namespace ys {
 template<class P>
 std::string glue_offsets(int slot);
 
+// generator::write_static_offsets<Policy> only (typed world)
+template<class P>
+std::string glue_offsets_policy();
+
 // generator::encode_dispatch_data(compiler, policy_name, os)
 template<class P>
 std::string glue_encode(
